@@ -1,6 +1,7 @@
 (* correspondence glue for C08: the Go hash trees and verifiers against the reference construction,
    run with the executable SHA-256 *)
-From V Require Export Base.Hex Merkle.Sha256 Merkle.RefPath Merkle.Main Merkle.AHT.
+From V Require Export Base.Hex Merkle.Sha256 Merkle.RefPath Merkle.Main Merkle.AHT Merkle.VerifyFixed.
+From V Require Import Merkle.RefutedFixed.
 
 Definition Hs := sha256.
 Definition mroot (l : list bytes) : bytes := mth Hs l.
@@ -12,6 +13,11 @@ Fixpoint prefixes_roots (n : nat) (l : list bytes) (k : N) : list bytes :=
   end.
 
 Definition lbytes_eqb := list_eqb bytes_eqb.
+
+(* the consistency verifier the Go code is compared with.  When fixes/C08-consistency-length.diff is
+   applied to /repo, replace `verify_consistency` by `verify_consistency_fixed` here (nothing else
+   changes in the tie); theorems C08_consistency_fixed_* are about that function. *)
+Definition vcons := verify_consistency Hs.
 
 (* index into the digest log recorded by the harness (N counter: an out-of-range index stays cheap) *)
 Fixpoint nthN (l : list bytes) (i : N) : res bytes :=
@@ -78,7 +84,7 @@ Definition case_ok (c : case) : bool :=
       lbytes_eqb (honest_inclusion_proof Hs (takeN j p) i) proof
   | CVerIncl t i j leaf root v => Bool.eqb (verify_inclusion Hs t i j leaf root) v
   | CVerLast t i leaf root v => Bool.eqb (verify_last_inclusion Hs t i leaf root) v
-  | CVerCons t i j ir jr v => res_eqb Bool.eqb (verify_consistency Hs t i j ir jr) v
+  | CVerCons t i j ir jr v => res_eqb Bool.eqb (vcons t i j ir jr) v
   | CHtRoot ds root =>
       bytes_eqb (match ds with [] => Hs [] | _ => mroot ds end) root
   | CHtProof ds i terms =>
